@@ -192,7 +192,7 @@ func c20RandEvent(r *rand.Rand, cfg c20Cfg) c20Ev {
 			if cfg.Index {
 				return c20Ev{Kind: "create", Value: c20Item{K: []string{"a", "ab", "b", "", "a<FF>", "a<FF>b"}[r.Intn(6)], A: "new"}}
 			}
-			m := map[string]interface{}{}
+			m := map[string]interface{}{"pad": strings.Repeat(fmt.Sprintf("%04d-", r.Intn(10000)), 1500)}
 			for _, k := range []string{"a", "b"} {
 				if r.Intn(2) == 0 {
 					m[k] = c20Vals[r.Intn(len(c20Vals))]
@@ -360,6 +360,65 @@ func (e *c20Env) served(rid string) (string, bool) {
 	return canon(json.RawMessage(raw)), true
 }
 
+// c20Burst sends gets for all resources without waiting for the responses (they are
+// handled by different workers at the same time) and compares every response with the
+// fold of its own resource.
+func c20Burst(c *core.Ctx, e *c20Env, rids []string, states map[string]interface{}, sigCfg string, hist []string) bool {
+	type pend struct {
+		rid, inbox string
+		done       chan struct{}
+	}
+	start := e.rig.C.Len()
+	var ps []pend
+	for k := 0; k < 90; k++ {
+		rid := rids[k%len(rids)]
+		inbox, done, n := e.rig.send("get."+rid, nil)
+		if n != 1 {
+			c.Inconclusive("burst get not delivered")
+			return false
+		}
+		ps = append(ps, pend{rid, inbox, done})
+	}
+	for _, p := range ps {
+		if !waitCh(p.done, 10*time.Second) {
+			c.Inconclusive("burst get not processed")
+			return false
+		}
+	}
+	log := e.rig.C.Since(start)
+	for _, p := range ps {
+		resp, _ := replies(log, p.inbox)
+		c.Obs("burst_gets", 1)
+		if len(resp) != 1 {
+			continue
+		}
+		var rr struct {
+			Result *struct {
+				Model      json.RawMessage `json:"model"`
+				Collection json.RawMessage `json:"collection"`
+			} `json:"result"`
+			Error *res.Error `json:"error"`
+		}
+		got := "malformed:" + short(resp[0].Payload, 80)
+		if json.Unmarshal(resp[0].Data, &rr) == nil {
+			switch {
+			case rr.Error != nil:
+				got = rr.Error.Code
+			case rr.Result != nil && e.cfg.Type == "collection":
+				got = canon(json.RawMessage(rr.Result.Collection))
+			case rr.Result != nil:
+				got = canon(json.RawMessage(rr.Result.Model))
+			}
+		}
+		if want := e.expectServed(states[p.rid]); got != want {
+			c.Violation("C20/get-not-fold:concurrent-gets:"+sigCfg, fmt.Sprintf("with gets for %d resources of the handler in flight at the same time, get %s serves %s, its events folded give %s", len(rids), p.rid, short(got, 200), short(want, 200)),
+				map[string]interface{}{"config": e.cfg, "rid": p.rid, "served": got, "want": want, "history": hist})
+			return true
+		}
+	}
+	return true
+}
+
 func (e *c20Env) expectServed(state interface{}) string {
 	if state == nil {
 		if e.def != nil {
@@ -522,6 +581,11 @@ func c20Sequence(c *core.Ctx, cfg c20Cfg, dir string, r *rand.Rand, seq int) boo
 				return false
 			}
 		}
+	}
+	// the resources of one handler served at the same time: every get still serves its own fold
+	if !c20Burst(c, e, rids, states, sigCfg, hist) {
+		e.closeAll()
+		return false
 	}
 	// reopen under a new service
 	e.closeAll()
